@@ -380,3 +380,18 @@ B('e_routes_reset_helper_called_from_add', ['C11'], 'R11',
       '    def _init_routes(self, entries):\n        self.routes = []\n        self._null_route = NullRoute().bind(self)\n'
       '        for entry in entries:\n            self.add(entry)\n\n    def set_error_handler(self, error_handler=None):\n'),
   (A, '        check_render_error(error_handler.render_error, self.resources)\n', '        check_render_error(error_handler.render_error, self.resources)\n        if not self.debug and error_handler is None:\n            self._init_routes([])\n'))
+
+# ---- the requested index (R11.c)
+B('e_add_index_zero_taken_for_none', ['C11'], 'R11.c',
+  (A, '        if index is None:\n            index = len(self.routes)\n', '        index = index or len(self.routes)\n'))
+B('e_add_index_default_front', ['C11'], 'R11.c',
+  (A, '        if index is None:\n            index = len(self.routes)\n', '        if index is None:\n            index = 0\n'))
+T('e_add_index_condexpr_local', ['C11'],
+  (A, '        if index is None:\n            index = len(self.routes)\n', '        insert_at = len(self.routes) if index is None else index\n'),
+  (A, '            self.routes.insert(index, br)\n            index += 1\n', '            self.routes.insert(insert_at, br)\n            insert_at += 1\n'))
+T('e_add_zip_count_positions', ['C11'],
+  (A, '        for br in bound_routes:\n            self.routes.insert(index, br)\n            index += 1\n',
+      '        for position, br in zip(itertools.count(index), bound_routes):\n            self.routes.insert(position, br)\n'))
+T('e_add_enumerate_from_index', ['C11'],
+  (A, '        for br in bound_routes:\n            self.routes.insert(index, br)\n            index += 1\n',
+      '        for position, br in enumerate(bound_routes, index):\n            self.routes.insert(position, br)\n'))
